@@ -245,6 +245,34 @@ func (s *Session) Step(m *ref9p.Msg, b script.Behav) (*ref9p.Msg, error) {
 	return r, nil
 }
 
+// Version sends a Tversion in mid-session (the caller keeps the connection
+// quiescent: nothing outstanding) and checks the step against the model: the
+// valid set is unchanged by it, so no FidDestroy may be reported for a fid
+// that is still valid (the probes that follow see whether each fid still
+// answers, as the same object and user). The client's and the model's dialect
+// and msize follow the Rversion. An Rerror leaves everything as it was.
+func (s *Session) Version(msize uint32, version string) (*ref9p.Msg, error) {
+	s.Steps++
+	key := fmt.Sprintf("Tversion/%d/%s", msize, version)
+	S := s.Sh.Sv.S
+	before := len(S.Log())
+	r, err := s.C.Version(msize, version)
+	if err != nil {
+		if err == rawc.ErrTimeout {
+			return nil, &Hang{fmt.Sprintf("no reply to %s", key)}
+		}
+		return nil, vio("%s: %v", key, err)
+	}
+	entries := S.Log()[before:]
+	if r.Type == ref9p.Rversion {
+		s.M.Version(s.C.Dotu, s.C.Msize)
+	}
+	if err := s.account(entries, nil, key); err != nil {
+		return r, err
+	}
+	return r, nil
+}
+
 // account processes the FidDestroy entries of a step.
 func (s *Session) account(entries []script.Entry, dead []int, key string) error {
 	sh := s.Sh
